@@ -426,7 +426,7 @@ def run(ctx):
         items = [(t, nospace) for t in g]
         items = common.shard(items, ctx.seed)
         chunks = [items[i:i + 2000] for i in range(0, len(items), 2000)]
-        res = pool.pmap(_prep, chunks, chunk=1)
+        res = pool.pmap(_prep, chunks, chunk=1, timeout=1800)
         n0 = stats["checked"]
         for r in res:
             if r == "TIMEOUT":
@@ -441,13 +441,32 @@ def run(ctx):
     lits = literal_strings(litlen)
     chunks = [lits[i:i + 1000] for i in range(0, len(lits), 1000)]
     lst = collections.Counter()
-    for r in pool.pmap(_lit_chunk, chunks, chunk=1):
+    for r in pool.pmap(_lit_chunk, chunks, chunk=1, timeout=1800):
         st, vr = r
         lst.update(st)
         V.merge(vr)
     bounds.append({"family": "numeric literal strings of length <= %d over {0,1,7,.,e,E,+,-,j,J} accepted by the g4-derived lexer as one INT/FLOAT/COMPLEX token" % litlen,
                    "token_strings": len(lits), "in_domain_checked": lst["checked"]})
     samples.extend(t for t, _ in common.sample(lits, 3))
+    # (b') boundary literals: integers around 2**31, 2**32, 2**53 (not representable as doubles), 2**62, 2**63-1;
+    # floats at the edges of the double range; and exact integer arithmetic on them (a value rounded through a
+    # double is off by ~1e-16 relative, visible only where exact arithmetic cancels the high part)
+    big = [2 ** 31 - 1, 2 ** 31, 2 ** 32 + 1, 2 ** 53 - 1, 2 ** 53, 2 ** 53 + 1, 9007199254740993, 2 ** 62 + 1, 2 ** 63 - 1, 123456789012345678]
+    bitems = [([str(v)], False) for v in big]
+    for a_, b_ in itertools.permutations(big, 2):
+        for op in ("-", "+"):
+            bitems.append(([str(a_), op, str(b_)], False))
+    for v in big[:8]:
+        bitems.append(([str(v), "*", "3"], False))
+        bitems.append((["(", str(v), "-", str(v - 1), ")", "*", "5"], False))
+        bitems.append(([str(v), "-", "1", "-", str(v - 2)], False))
+    for f in ("1e308", "1.7976931348623157e308", "2.2250738585072014e-308", "5e-324", "4.9e-324", "1e-323", "0.1e1", "123456789.123456789", "0.30000000000000004", "9007199254740993.0", "1e22", "1e23"):
+        bitems.append(([f], False))
+        bitems.append(([f, "*", "1"], False))
+    st, vr = _prep(bitems)
+    stats.update(st)
+    V.merge(vr)
+    bounds.append({"family": "boundary literals (integers around 2**31..2**63-1, doubles at the range edges) and exact integer arithmetic on them", "token_strings": len(bitems), "in_domain_checked": st.get("checked", 0)})
     # (c) functions at domain points
     fitems = [([f, "(", p, ")"] if not p.startswith("-") else [f, "(", "-", p[1:], ")"], False) for f in FUNCS for p in FUNC_POINTS[f]]
     st, vr = _prep(fitems)
